@@ -402,6 +402,32 @@ def standard_check(mod, tier, seed, replay=None):
         if nviol > 5:
             res.notes.append('%d further disagreements not listed' % (nviol - 5))
 
+    # 2b. extraction cross-check: a sample of the extracted model's answers is re-proved inside Coq by vm_compute
+    if exe and cases and hasattr(mod, 'golden') and proof_ok:
+        k = 400 if tier == 'thorough' else 60
+        step = max(1, len(cases) // k)
+        stmts = []
+        for i in range(0, len(cases), step):
+            try:
+                g = mod.golden(cases[i], model_out[i])
+            except Exception:
+                g = None
+            if g:
+                stmts.append(g)
+        if stmts:
+            gv = os.path.join(rundir, 'Golden%s.v' % mod.PROP)
+            with open(gv, 'w') as f:
+                f.write(mod.GOLDEN_HEADER + '\n')
+                for j, st in enumerate(stmts):
+                    f.write('Goal %s. Proof. vm_compute. reflexivity. Qed.\n' % st)
+            rc_g, out_g = sh('timeout 900 coqc -Q %s Verif -w -notation-overridden %s' % (COQ, gv), cwd=rundir, timeout=930)
+            res.cov['extraction_crosscheck'] = {'statements': len(stmts), 'ok': rc_g == 0}
+            res.trusted.append('extraction cross-check: %d extracted-model answers re-proved inside Coq by vm_compute: %s'
+                               % (len(stmts), 'all accepted' if rc_g == 0 else 'FAILED'))
+            if rc_g != 0:
+                proof_ok = False
+                broken.append('extraction cross-check failed (extracted program and Coq evaluation differ): ' + out_g[-400:])
+
     # 3. known findings must still reproduce
     for e in load_known(mod.PROP):
         if e.get('status') != 'known':
